@@ -112,6 +112,13 @@ Fixpoint hier_sym (lvls : list level) : Prop :=
     end /\ hier_sym rest
   end.
 
+(* pre-smoothers must be consistent as well (needed beyond one sweep / one cycle) *)
+Fixpoint hier_symk (lvls : list level) : Prop :=
+  match lvls with
+  | [] => True
+  | l :: rest => sweep_cons (nrows (lA l)) (lA l) (lpre l) /\ hier_symk rest
+  end.
+
 Lemma hier_sym_mid (l nxt : level) (rest : list level) :
   sweep_ok (nrows (lA l)) (lpre l) -> sweep_ok (nrows (lA l)) (lpost l) ->
   wf (lA l) = true -> sym_mat (nrows (lA l)) (lA l) ->
@@ -467,7 +474,10 @@ Section Inst.
 Variable mk_relax : crs -> sweep * sweep.
 Variable mk_solve : crs -> vec -> vec -> vec.
 Hypothesis relax_ok : forall A, sweep_ok (nrows A) (fst (mk_relax A)) /\ sweep_ok (nrows A) (snd (mk_relax A)).
-Hypothesis relax_sym : forall A, wf A = true ->
+(* side condition on the level matrices under which the smoother is consistent / adjoint *)
+Variable good : crs -> Prop.
+Hypothesis relax_sym : forall A, wf A = true -> sym_mat (nrows A) A -> good A ->
+  sweep_cons (nrows A) A (fst (mk_relax A)) /\
   sweep_cons (nrows A) A (snd (mk_relax A)) /\ sweep_adj (nrows A) (fst (mk_relax A)) (snd (mk_relax A)).
 Hypothesis solve_ok_all : forall A, solve_ok (nrows A) (mk_solve A).
 Local Notation inst := (instantiate mk_relax mk_solve).
@@ -486,12 +496,14 @@ Proof.
   rewrite !vget_vzero. ring.
 Qed.
 
-Lemma inst_sym_common (l : ldesc) : wf (ld_A l) = true ->
+Lemma inst_sym_common (l : ldesc) :
+  wf (ld_A l) = true -> sym_mat (nrows (ld_A l)) (ld_A l) -> good (ld_A l) ->
+  sweep_cons (nrows (ld_A l)) (ld_A l) (lpre (inst l)) /\
   sweep_cons (nrows (ld_A l)) (ld_A l) (lpost (inst l)) /\
   sweep_adj (nrows (ld_A l)) (lpre (inst l)) (lpost (inst l)).
 Proof.
   destruct l as [A P R|A|A]; cbn [instantiate lpre lpost ld_A]; try apply relax_sym.
-  intros _. split; [apply id_sweep_cons|apply id_sweep_adj].
+  intros _ _ _. split; [apply id_sweep_cons|]. split; [apply id_sweep_cons|apply id_sweep_adj].
 Qed.
 
 (* transfer-operator lists with R = transpose P that fit a fine matrix with n rows *)
@@ -505,36 +517,43 @@ Fixpoint ts_sym (n : nat) (ts : list (option (crs * crs))) : Prop :=
 Theorem build_hier_sym ce dc ml cop : coarse_shape cop -> cop_wf cop -> cop_sym cop ->
   forall ts A nlev, wf A = true -> sym_mat (nrows A) A -> ts_sym (nrows A) ts ->
   (forall A', In (LSolve A') (build ce dc ml cop ts A nlev) -> solve_sym (nrows A') (mk_solve A')) ->
-  hier_sym (map inst (build ce dc ml cop ts A nlev)).
+  (forall l, In l (build ce dc ml cop ts A nlev) -> good (ld_A l)) ->
+  hier_sym (map inst (build ce dc ml cop ts A nlev)) /\ hier_symk (map inst (build ce dc ml cop ts A nlev)).
 Proof.
-  intros Hshape Hcw Hcs ts. induction ts as [|t ts' IH]; intros A nlev WA SA Hts Hsol.
+  intros Hshape Hcw Hcs ts. induction ts as [|t ts' IH]; intros A nlev WA SA Hts Hsol Hgood.
   - (* no transfer operators left: a single last level *)
     rewrite build_unfold in *.
     assert (G : forall l, ld_A l = A -> is_mid l = false ->
                 (forall A', In (LSolve A') [l] -> solve_sym (nrows A') (mk_solve A')) ->
-                hier_sym (map inst [l])).
-    { intros l EA Hm Hs. cbn [map hier_sym]. rewrite (inst_lA mk_relax mk_solve), EA.
+                (forall l', In l' [l] -> good (ld_A l')) ->
+                hier_sym (map inst [l]) /\ hier_symk (map inst [l])).
+    { intros l EA Hm Hs Hg. cbn [map hier_sym hier_symk]. rewrite (inst_lA mk_relax mk_solve), EA.
       pose proof (inst_sweeps_ok mk_relax mk_solve relax_ok l) as Hok. rewrite EA in Hok.
       pose proof (inst_sym_common l) as Hsy. rewrite EA in Hsy.
-      repeat split; try apply Hok; try apply Hsy; try assumption; try apply SA.
-      - destruct l as [A0 P0 R0|A0|A0]; cbn in H; try discriminate.
-        simpl in EA. subst A0. inversion H. apply solve_ok_all.
-      - destruct l as [A0 P0 R0|A0|A0]; cbn in H; try discriminate.
-        simpl in EA. subst A0. inversion H. apply Hs. left. reflexivity. }
+      assert (Hgl : good A) by (rewrite <- EA; apply Hg; left; reflexivity).
+      destruct (Hsy WA SA Hgl) as (Hs1 & Hs2 & Hs3). destruct Hok as [Ho1 Ho2].
+      split; [|split; [exact Hs1|exact I]].
+      split; [exact Ho1|]. split; [exact Ho2|]. split; [exact WA|]. split; [exact SA|].
+      split; [exact Hs2|]. split; [exact Hs3|]. split; [|exact I].
+      intros sv H. destruct l as [A0 P0 R0|A0|A0]; cbn in H; try discriminate.
+      simpl in EA. subst A0. inversion H. split; [apply solve_ok_all|apply Hs; left; reflexivity]. }
     destruct (Nat.leb (nrows A) ce); [destruct dc; apply G; auto|].
     destruct (Nat.leb ml (Datatypes.S nlev)); apply G; auto.
   - rewrite build_unfold in *.
     assert (G : forall l, ld_A l = A -> is_mid l = false ->
                 (forall A', In (LSolve A') [l] -> solve_sym (nrows A') (mk_solve A')) ->
-                hier_sym (map inst [l])).
-    { intros l EA Hm Hs. cbn [map hier_sym]. rewrite (inst_lA mk_relax mk_solve), EA.
+                (forall l', In l' [l] -> good (ld_A l')) ->
+                hier_sym (map inst [l]) /\ hier_symk (map inst [l])).
+    { intros l EA Hm Hs Hg. cbn [map hier_sym hier_symk]. rewrite (inst_lA mk_relax mk_solve), EA.
       pose proof (inst_sweeps_ok mk_relax mk_solve relax_ok l) as Hok. rewrite EA in Hok.
       pose proof (inst_sym_common l) as Hsy. rewrite EA in Hsy.
-      repeat split; try apply Hok; try apply Hsy; try assumption; try apply SA.
-      - destruct l as [A0 P0 R0|A0|A0]; cbn in H; try discriminate.
-        simpl in EA. subst A0. inversion H. apply solve_ok_all.
-      - destruct l as [A0 P0 R0|A0|A0]; cbn in H; try discriminate.
-        simpl in EA. subst A0. inversion H. apply Hs. left. reflexivity. }
+      assert (Hgl : good A) by (rewrite <- EA; apply Hg; left; reflexivity).
+      destruct (Hsy WA SA Hgl) as (Hs1 & Hs2 & Hs3). destruct Hok as [Ho1 Ho2].
+      split; [|split; [exact Hs1|exact I]].
+      split; [exact Ho1|]. split; [exact Ho2|]. split; [exact WA|]. split; [exact SA|].
+      split; [exact Hs2|]. split; [exact Hs3|]. split; [|exact I].
+      intros sv H. destruct l as [A0 P0 R0|A0|A0]; cbn in H; try discriminate.
+      simpl in EA. subst A0. inversion H. split; [apply solve_ok_all|apply Hs; left; reflexivity]. }
     destruct (Nat.leb (nrows A) ce); [destruct dc; apply G; auto|].
     destruct (Nat.leb ml (Datatypes.S nlev)); [apply G; auto|].
     destruct t as [[P R]|]; [|apply G; auto].
@@ -554,15 +573,20 @@ Proof.
     assert (Hsol' : forall A', In (LSolve A') (build ce dc ml cop ts' A2 (Datatypes.S nlev)) ->
                      solve_sym (nrows A') (mk_solve A'))
       by (intros A' HA'; apply Hsol; right; exact HA').
-    specialize (IH Hsol').
+    assert (Hgood' : forall l', In l' (build ce dc ml cop ts' A2 (Datatypes.S nlev)) -> good (ld_A l'))
+      by (intros l' Hl'; apply Hgood; right; exact Hl').
+    specialize (IH Hsol' Hgood'). destruct IH as [IH1 IH2].
+    assert (HgA : good A) by (apply (Hgood (LMid A P' R')); left; reflexivity).
     pose proof (build_head ce dc ml cop ts' A2 (Datatypes.S nlev)) as Hhd.
     destruct (build ce dc ml cop ts' A2 (Datatypes.S nlev)) as [|nxt tl]; [destruct Hhd|].
     simpl in Hhd.
     cbn [map] in *.
-    destruct (relax_ok A) as [Ho1 Ho2]. destruct (relax_sym A WA) as [Hc1 Hc2].
-    apply hier_sym_mid; cbn [instantiate lA lR lP lpre lpost];
-      rewrite ?(inst_lA mk_relax mk_solve), ?Hhd, ?N2; try assumption.
-    unfold P'. rewrite sort_rows_nrows. exact NP.
+    destruct (relax_ok A) as [Ho1 Ho2]. destruct (relax_sym A WA SA HgA) as (Hc0 & Hc1 & Hc2).
+    split.
+    + apply hier_sym_mid; cbn [instantiate lA lR lP lpre lpost];
+        rewrite ?(inst_lA mk_relax mk_solve), ?Hhd, ?N2; try assumption.
+      unfold P'. rewrite sort_rows_nrows. exact NP.
+    + cbn [hier_symk instantiate lA lpre]. split; [exact Hc0|exact IH2].
 Qed.
 
 End Inst.
@@ -571,12 +595,13 @@ End Inst.
 Definition sym_kind (k : @relax_kind S) : Prop := match k with RGS => False | _ => True end.
 
 Theorem mk_relax_std_sym (k : @relax_kind S) : sym_kind k -> forall A : crs, wf A = true ->
+  sweep_cons (nrows A) A (fst (mk_relax_std k A)) /\
   sweep_cons (nrows A) A (snd (mk_relax_std k A)) /\
   sweep_adj (nrows A) (fst (mk_relax_std k A)) (snd (mk_relax_std k A)).
 Proof.
   intros Hk A WA. destruct k as [w| |]; cbn [mk_relax_std fst snd]; [| |destruct Hk].
-  - apply (jacobi_sym_ok w A (vzero (nrows A)) WA).
-  - apply (spai0_sym_ok A WA).
+  - destruct (jacobi_sym_ok w A (vzero (nrows A)) WA) as [H1 H2]. auto.
+  - destruct (spai0_sym_ok A WA) as [H1 H2]. auto.
 Qed.
 
 Lemma build_no_solve ce ml cop ts : forall (A : crs) nlev A',
@@ -598,18 +623,19 @@ Theorem std_levels_sym k ce dc ml sc ts (M : crs) : sym_kind k ->
   wf M = true -> sym_mat (nrows M) M -> ts_sym (nrows M) ts ->
   (forall A, In (LSolve A) (amg_init ce dc ml (coarse_op_of sc) ts M) ->
              solve_sym (nrows A) (mk_solve_exact A)) ->
-  hier_sym (std_levels k (amg_init ce dc ml (coarse_op_of sc) ts M)).
+  hier_sym (std_levels k (amg_init ce dc ml (coarse_op_of sc) ts M)) /\
+  hier_symk (std_levels k (amg_init ce dc ml (coarse_op_of sc) ts M)).
 Proof.
   intros Hk WM SM Hts Hsol. unfold std_levels, amg_init.
-  apply (build_hier_sym (mk_relax_std k) mk_solve_exact (mk_relax_std_ok k) (mk_relax_std_sym k Hk)
+  apply (build_hier_sym (mk_relax_std k) mk_solve_exact (mk_relax_std_ok k) (fun _ => True)
+           (fun A WA _ _ => mk_relax_std_sym k Hk A WA)
            mk_solve_exact_ok ce dc ml (coarse_op_of sc)
-           (coarse_op_of_shape sc)).
+           (coarse_op_of_shape sc)); [| | | | |exact Hsol|auto].
   - destruct sc as [s|]; [apply (scaled_galerkin_cop_wf s)|apply galerkin_cop_wf].
   - apply coarse_op_of_sym.
   - apply sort_rows_wf, WM.
   - rewrite sort_rows_nrows. apply sort_rows_sym, SM.
   - rewrite sort_rows_nrows. exact Hts.
-  - exact Hsol.
 Qed.
 
 Theorem built_apply_sym k ce dc ml sc ts (M : crs) : sym_kind k ->
@@ -623,7 +649,7 @@ Theorem built_apply_sym k ce dc ml sc ts (M : crs) : sym_kind k ->
   dot (fst (apply 1 1 1 1 lvls scr1 f x1)) g = dot f (fst (apply 1 1 1 1 lvls scr2 g x2)).
 Proof.
   intros Hk WM SM Hts Hsol lvls scr1 scr2 f g x1 x2 H1 H2 Lf Lg L1 L2.
-  pose proof (std_levels_sym k ce dc ml sc ts M Hk WM SM Hts Hsol) as Hsym.
+  pose proof (proj1 (std_levels_sym k ce dc ml sc ts M Hk WM SM Hts Hsol)) as Hsym.
   destruct (amg_init_chain ce dc ml (coarse_op_of sc) ts M) as [Hc Hh].
   destruct (std_levels_wf k _ _ (coarse_op_of_shape sc) Hc) as (_ & Hne & _).
   assert (En : top_n lvls = nrows M).
